@@ -83,7 +83,8 @@ fn applies(en: &Entry, rel: Rel) -> bool {
 
 fn strategy(rel: Rel, exact: bool) -> impl Fn(Tier) -> BoxedStrategy<Case> + Send + Sync {
     move |tier: Tier| {
-        let idx: Vec<usize> = (0..TABLE.len()).filter(|i| applies(&TABLE[*i], rel)).collect();
+        // f64 affine leg: only the views that never form anything but differences (and comparisons) of inputs
+        let idx: Vec<usize> = (0..TABLE.len()).filter(|i| applies(&TABLE[*i], rel) && (exact || rel != Rel::Affine || matches!(TABLE[*i].name, "HLNormalizer" | "NET" | "EFT"))).collect();
         (proptest::sample::select(idx), 1usize..=tier.pick(20, 64), gen::dyadic_scale(), 1i64..=48, 1i64..=48, -64i64..=64, 0u32..4, prop_oneof![3 => -30i64..=30, 2 => -200i64..=200])
             .prop_flat_map(move |(i, n, sc, p, q, r, be, k2)| {
                 let en = TABLE[i];
@@ -97,12 +98,17 @@ fn strategy(rel: Rel, exact: bool) -> impl Fn(Tier) -> BoxedStrategy<Case> + Sen
                         Rel::Negation => (Rat(-1, 1), Rat(0, 1)),
                         Rel::Scale if exact => (Rat(p, q), Rat(0, 1)),
                         Rel::Affine if exact => (Rat(p, q), Rat(r << (10 * be), 8)),
+                        // f64 affine leg: a = 1 and a dyadic offset up to 2^37 grid units (x + b is exact in f64)
+                        // ... or, one case in four, an offset of 2^52 + r 2^40 grid units: x + b is still exact but uses all 53 bits,
+                        // so that anything but a difference of two inputs (a sum, a midpoint) must round
+                        Rel::Affine if be == 3 => (Rat(1, 1), Rat(((1i64 << 52) + (r.abs() << 40)) * sc.0, sc.1)),
+                        Rel::Affine => (Rat(1, 1), Rat(r << (10 * be), 8)),
                         // f64 legs: a = 2^k, b = 0 (bit-exact commutation with every IEEE operation)
                         // (a = 2^k2 travels in ints[1]: k2 ranges over -200..200, far beyond an i64 ratio; tiny and huge units
                         // expose absolute thresholds such as `< epsilon` that a moderate unit never meets)
                         _ => (Rat(1, 1), Rat(0, 1)),
                     };
-                    let pow2 = !(rel == Rel::Negation || exact);
+                    let pow2 = rel == Rel::Scale && !exact;
                     Case { spec: Some((en.mk)(n)), xs, a, b, ints: if pow2 { vec![i as i64, k2] } else { vec![i as i64] }, ..Default::default() }
                 })
             })
@@ -144,7 +150,8 @@ fn check(rel: Rel, exact: bool) -> impl Fn(&Case) -> Verdict + Send + Sync {
         } else {
             let x1 = f64s(&case.xs);
             let af = match k2 { Some(k) => 2f64.powi(k as i32), None => case.a.f64() };
-            let x2: Vec<f64> = x1.iter().map(|x| af * x).collect();
+            let bf = case.b.f64();
+            let x2: Vec<f64> = x1.iter().map(|x| af * x + bf).collect();
             let cv = |v: Vec<Option<f64>>| v.into_iter().map(|o| o.map(XV::from_f64)).collect();
             (cv(run_f64(&spec2, &x1)), cv(run_f64(spec, &x2)))
         };
@@ -254,6 +261,31 @@ fn ultra_check(case: &Case) -> Verdict {
     }
 }
 
+/// fz_single: relation (affine Q, scale Q, scale f64 with a = 2^k, negation Q), view of that relation's list, N, a, b, stream
+pub fn fuzz_decode(u: &mut arbitrary::Unstructured) -> Option<(String, Case)> {
+    let which = u.int_in_range(0..=3u8).ok()?;
+    let (rel, exact, id) = match which {
+        0 => (Rel::Affine, true, "C12/affine/Q"),
+        1 => (Rel::Scale, true, "C12/scale/Q"),
+        2 => (Rel::Scale, false, "C12/scale/f64"),
+        _ => (Rel::Negation, true, "C12/negation/Q"),
+    };
+    let idx: Vec<usize> = (0..TABLE.len()).filter(|i| applies(&TABLE[*i], rel)).collect();
+    let i = idx[u.int_in_range(0..=idx.len() - 1).ok()?];
+    let en = TABLE[i];
+    let n = en.min_n.max(1) + u.int_in_range(0..=19usize).ok()?;
+    let (p, q, r, be, k2) = (1 + u.int_in_range(0..=47i64).ok()?, 1 + u.int_in_range(0..=47i64).ok()?, u.int_in_range(-64..=64i64).ok()?, u.int_in_range(0..=3u32).ok()?, u.int_in_range(-200..=200i64).ok()?);
+    let xs = crate::fuzzdec::stream(u, en.positive, 200);
+    let (a, b) = match (rel, exact) {
+        (Rel::Negation, _) => (Rat(-1, 1), Rat(0, 1)),
+        (Rel::Scale, true) => (Rat(p, q), Rat(0, 1)),
+        (Rel::Affine, true) => (Rat(p, q), Rat(r << (10 * be), 8)),
+        _ => (Rat(1, 1), Rat(0, 1)),
+    };
+    let pow2 = rel == Rel::Scale && !exact;
+    Some((id.to_string(), Case { spec: Some((en.mk)(n)), xs, a, b, ints: if pow2 { vec![i as i64, k2] } else { vec![i as i64] }, ..Default::default() }))
+}
+
 pub fn clauses() -> Vec<Clause> {
     let g = "view drawn from the statement's list for the relation, N in 1..20 (thorough ..64) from the view's minimum, grammar stream of 0..3N+20 values on a dyadic grid (ties, zeros, flats, sign changes; positive for LnReturn / Drawdown).";
     vec![
@@ -261,6 +293,7 @@ pub fn clauses() -> Vec<Clause> {
         Clause::generated("C12", "C12/scale/Q", format!("{g} x vs a x, a = p/q. Rsi, MyRSI, LaguerreRSI, Vst (flat windows exempt: it returns x_t there by C02's convention), Roc, CoG, BinaryEntropy, TrendFlex, ReFlex, LnReturn, Drawdown, and the list-(i) views unchanged; Min, Max, Sma, Ema, Alma, Cumulative, WelfordOnline, WelfordRolling, LaguerreFilter, SuperSmoother, RoofingFilter, CyberCycle scale by a. Exact in Q."), 8000, 200_000, strategy(Rel::Scale, true), check(Rel::Scale, true)).with_shard(100),
         Clause::generated("C12", "C12/scale/f64", format!("{g} a = 2^k, k in -30..30 (3 in 5) or -200..200 (2 in 5; units far below f64 epsilon and far above 2^53): the same relations must hold bit for bit in f64 (scaling by a power of two commutes with every IEEE operation absent over/underflow)."), 20_000, 500_000, strategy(Rel::Scale, false), check(Rel::Scale, false)).with_shard(1000),
         Clause::enumerated("C12", "C12/ultra_scale/f64", "Enumerated: every view of the scale relation at N = max(minimum, 5), 135 000 values (thorough 1.1e6; past 2^16 and 2^17 updates) on the 1/8 grid, x vs 2^k x with k in {-61, 37, -7}: unchanged / scaled bit for bit in f64 at every step (Vst's flat windows exempt).", ultra_cases, ultra_check).with_shard(2),
+        Clause::generated("C12", "C12/affine/f64", format!("{g} HLNormalizer, NET and EFT only ever form differences and comparisons of their inputs: x vs x + b with b a dyadic offset up to 2^37 grid units, or (one case in four) of 2^52..2^53 grid units (x + b still exact in f64, but any sum or midpoint of two inputs must round), must give bit-identical outputs in f64."), 6000, 150_000, strategy(Rel::Affine, false), check(Rel::Affine, false)).with_shard(1000),
         Clause::generated("C12", "C12/negation/Q", format!("{g} x vs -x: HLNormalizer, Vsct, Vst, MyRSI, CTI, NET, TrendFlex, ReFlex negate; Rsi -> 100 - Rsi on non-flat windows; Min(-x) = -Max(x). Exact in Q."), 6000, 150_000, strategy(Rel::Negation, true), check(Rel::Negation, true)).with_shard(150),
         Clause::generated("C12", "C12/negation/f64", format!("{g} the same relations in f64 up to 1e-9 (1 + |value|)."), 12_000, 300_000, strategy(Rel::Negation, false), check(Rel::Negation, false)).with_shard(1000),
     ]
